@@ -2,6 +2,7 @@
 //! the repository's current working tree).  One module per property; every
 //! harness is an ordinary `pub fn` so that `bin/check replay` can run it
 //! natively on the values of a solver counterexample (see `sym`).
+#![recursion_limit = "512"]
 #![allow(dead_code, unused_imports, unused_variables, unused_mut, clippy::all)]
 
 pub mod env;
